@@ -369,7 +369,8 @@ def _add_missing_width_and_sign_attributes_on_enum(enum, type_definition):
     if signed_attr is None:
         for value in enum.value:
             numeric_value = ir_util.constant_value(value.value)
-            if numeric_value < 0:
+            # A value that is not constant is reported by constraints.py.
+            if numeric_value is not None and numeric_value < 0:
                 is_signed = True
                 break
         else:
